@@ -17,12 +17,14 @@ def run(ctx):
     tcpfail = {"module": "GenTcpFail.tla", "cfg": "GenTcpFail.cfg", "name": "tcpfail"}   # write failures on TCP connections
     # failures while a new socket is configured (bind to the configured source address, options, local address)
     cfgf = {"module": "Gen_C10.tla", "cfg": "Gen_C10_cfgfault.cfg", "name": "cfgfault"}
+    # UDP transmissions that would block (datagram stays queued: write interest needed)
+    udpw = {"module": "Gen_C20.tla", "cfg": "Gen_C20_udp.cfg", "name": "udpwrites"}
     batch = {"module": "GenBatch.tla", "cfg": "GenBatch.cfg", "name": "batch"}
     if ctx.quick:
-        gens = [{"module": "Gen_C10.tla", "cfg": "Gen_C10_quick.cfg", "name": "bfs"}, many, tcpw, batch, tcpfail, cfgf]
+        gens = [{"module": "Gen_C10.tla", "cfg": "Gen_C10_quick.cfg", "name": "bfs"}, many, tcpw, batch, tcpfail, cfgf, udpw]
     else:
         gens = [{"module": "Gen_C10.tla", "cfg": "Gen_C10_thorough.cfg", "name": "bfs"},
-                {"module": "Gen_C10.tla", "cfg": "Gen_C10_sim.cfg", "name": "sim", "simulate": 1500, "depth": 9}, many, tcpw, batch, tcpfail, cfgf]
+                {"module": "Gen_C10.tla", "cfg": "Gen_C10_sim.cfg", "name": "sim", "simulate": 1500, "depth": 9}, many, tcpw, batch, tcpfail, cfgf, udpw]
     simlib.engine_check(ctx, gens, FACETS, selftests=mutators.SOCKETS)
     ctx.assumptions += ["sockets are virtual (ares_set_socket_functions_ex); descriptor numbers are never reused by the harness",
                         "ares_getsock is checked up to its 16-socket limit"]
